@@ -196,3 +196,51 @@ prop("C17",
      "G4 (iter uses Topo over graph for construction and stepping, iter_rev over Reversed(graph)), G5 (== compares node weights and source/target/weight of every edge).",
      "MIR iterator-chain inventory + expression reconstruction of the mapped tuple + impl table",
      "value-level round-trip equality through a concrete format (serde/daggy/serde_yaml_ng behaviour)")
+
+
+import rules_state as ST
+
+SERDE_DEP = 'serde = { version = "1", features = ["derive"] }'
+
+prop("C15",
+     [("N", ST.N_rules, K01, {}), ("D3", B.D3, K0, {})],
+     K01,
+     "Whole-property static argument (non-interference): N1 nothing reachable through &FnGraph<F> other than F contains an UnsafeCell (explicit deep type walk: "
+     "fields, generic arguments, pointees, normalised projections); N2 no hand-written unsafe block and no unsafe impl other than IndexType for FnIdInner (identity wrapper); "
+     "N3 no static mut / non-Freeze static / thread_local / OnceLock; N4 every per-run object (channels, counts copy, countdowns, processed list) is allocated inside the call; "
+     "N5 no body writes or mutably borrows graph_structure / graph_structure_rev / ranks / edge_counts of an existing graph, and `&mut graph` only reaches node-weight accessors; "
+     "witness: dropping a run midway and starting another type-checks for every F, scheduling fields are private (E0616). Hence a run's behaviour is a function of the unchanged "
+     "graph fields, its options, the caller's closures and the schedule only; an earlier (completed, interrupted, failed or dropped) run can influence it only through F or the caller's own state. "
+     "Equal fields on a freshly built graph follow from D3 (deterministic build).",
+     "type-level deep-immutability walk + effect (write / &mut borrow) inventory over all MIR bodies + borrow-checker witnesses",
+     "tokio's cooperative budget (a thread-local of the dependency) only adds self-woken Pendings; interior mutability inside the user's F is the user's",
+     level="other")
+PROPS["C15"]["witnesses"] = [("c15", [], ""), ("c15", ["interruptible"], "")]
+
+prop("C20",
+     [("N", ST.N_rules, K01, {})],
+     K01,
+     "Whole-property static argument (non-interference of simultaneous runs): N1-N5 as for C15 (nothing mutable is reachable through &FnGraph; no global state; all per-run state "
+     "allocated per call; scheduling fields never written), plus FnGraph<F>: Sync for F: Send + Sync (shared runs from several threads), two shared-reference runs and a stream may be "
+     "alive at once for every F (must-compile), two simultaneous `_mut` runs do not type-check (E0499) and a `_mut` run excludes shared runs (E0502), with a compiling sequential twin. "
+     "Each run therefore satisfies C01-C10 exactly as if alone: its behaviour depends only on immutable graph fields and its own allocations.",
+     "type-level deep-immutability walk + effect inventory over all MIR bodies + borrow-checker / auto-trait witnesses",
+     "tokio's cooperative budget thread-local only adds self-woken Pendings; user F interior mutability is the user's")
+PROPS["C20"]["witnesses"] = [("c15", [], ""), ("c15", ["interruptible"], ""), ("c19", [], "")]
+
+prop("C19",
+     [],
+     (),
+     "Decides the whole property with the type checker. Default features, universally quantified over F: Send + Sync, Send + Sync callbacks, Send futures, Send errors: "
+     "FnGraph<F>: Send + Sync, FnRef<'_, F>: Send, stream(), stream_with(), and the futures of for_each_concurrent{,_with,_mut,_mut_with}, try_for_each_concurrent{,_with,_mut,_mut_with}, "
+     "try_for_each_concurrent_control{,_with,_mut,_mut_with} are Send. Feature `interruptible`: FnGraph, FnRef, stream(), stream_with() remain Send. Each assertion has a negative twin "
+     "differing only by the offending bound that must fail with E0277, and concrete positive twins of the `spawn` shape.",
+     "rustc trait solver on a must-compile witness crate with must-fail (E0277) negative twins",
+     "nothing of the statement as read in DESIGN.md (stream_interruptible()'s own !Send-ness comes from interruptible::InterruptibilityState's Box<dyn Fn()> hooks and is not part of the claim)",
+     assumptions=["rustc's auto-trait / trait solver is the trusted base",
+                  "reading of the statement: with `interruptible`, `the stream` means stream()/stream_with(); stream_interruptible embeds the !Send InterruptibilityState of another crate"],
+     level="proof")
+PROPS["C19"]["witnesses"] = [("c19", [], ""), ("c19", ["interruptible"], "")]
+PROPS["C19"]["checker_cmd"] = "cargo check --offline --lib --examples --keep-going --message-format=json  (in /verif/.work/witness/c19-<features>, path-depending on /repo)"
+PROPS["C19"]["trusted_base"] = ["rustc type checker / trait solver (stable toolchain)", "cargo"]
+PROPS["C17"]["witnesses"] = [("c17", ["graph_info"], SERDE_DEP)]
